@@ -129,6 +129,18 @@ static const void* tablePtr(const BDDTopDownTreeAut& x) { return x.core_->transT
 static void convCheck(const BDDBottomUpTreeAut& x, const ref::TA& m, Ctx& c) { BDDTopDownTreeAut t = x.GetTopDownAut(); ref::TA T = numModel(t); if (!ref::equalLang(T, m)) c.viol("bdd-bu/GetTopDownAut", "language_changed", {"in_history"}, "result " + T.str(SIG().names.data()) + " expected language of " + m.str(SIG().names.data())); }
 static void convCheck(const BDDTopDownTreeAut&, const ref::TA&, Ctx&) {}
 
+// C07 in the same world: in the reached state, every ordered pair of live handles (incl. a handle with itself, and handles that SHARE a transition table)
+// is compared by the inclusion algorithms of the encoding; oracle: reference inclusion of the slots' reference values
+static bool g_inclObs = false;
+static InclParam mkIncl(bool down, bool rec, bool opt, bool sim) { InclParam ip; ip.SetAlgorithm(InclParam::e_algorithm::antichains); ip.SetDirection(down ? InclParam::e_direction::downward : InclParam::e_direction::upward); ip.SetUseRecursion(rec); ip.SetUseDownwardCacheImpl(opt); ip.SetUseSimulation(sim); return ip; }
+static void inclObserve(const BDDBottomUpTreeAut& a, const BDDBottomUpTreeAut& b, bool expect, const std::string& who, Ctx& c) {
+  struct V { const char* name; InclParam ip; } vs[] = {{"up_nosim", mkIncl(false, false, false, false)}, {"down_rec_sim", mkIncl(true, true, false, true)}};
+  for (auto& v : vs) { c.count("inclusion_calls_in_history_states"); bool g; try { g = BDDBottomUpTreeAut::CheckInclusion(a, b, v.ip); } catch (std::exception& e) { c.viol(std::string("bdd-bu/CheckInclusion/") + v.name, "exception", {"in_history"}, who + " " + e.what()); continue; }
+    if (g != expect) c.viol(std::string("bdd-bu/CheckInclusion/") + v.name, expect ? "says_not_included_but_is" : "says_included_but_is_not", {"in_history"}, who); } }
+static void inclObserve(const BDDTopDownTreeAut& a, const BDDTopDownTreeAut& b, bool expect, const std::string& who, Ctx& c) {
+  for (int opt = 0; opt < 2; opt++) { c.count("inclusion_calls_in_history_states"); bool g; InclParam ip = mkIncl(true, true, opt, false); try { g = BDDTopDownTreeAut::CheckInclusion(a, b, ip); } catch (std::exception& e) { c.viol(std::string("bdd-td/CheckInclusion/down_rec") + (opt ? "_opt" : "") + "_nosim", "exception", {"in_history"}, who + " " + e.what()); continue; }
+    if (g != expect) c.viol(std::string("bdd-td/CheckInclusion/down_rec") + (opt ? "_opt" : "") + "_nosim", expect ? "says_not_included_but_is" : "says_included_but_is_not", {"in_history"}, who); } }
+
 enum K { LOAD, LOADINTO, COPY, ASSIGN, DESTROY, UNION, UDS, ISECT, UNREACH, USELESS, TOPDOWN, SETFINAL, ADDTRANS };
 struct Op { K kind; int i, j, k, m; };
 static const int S = 3;
@@ -179,14 +191,17 @@ template <class Aut> static hist::StepResult run(const std::vector<int>& h, Ctx&
       // unreachable states left in a shared table are not observable in the language)
       if (!ref::equalLang(got, s[i].m)) c.viol(enc + "/value semantics", i == o.i || i == o.j || i == o.k ? "language_of_a_handle_involved_in_the_step_is_wrong" : "language_of_an_uninvolved_automaton_changed", {std::string("after_") + KN[o.kind]}, "s" + std::to_string(i) + " reads " + got.str(N) + " expected the language of " + s[i].m.str(N)); }
   }
+  if (g_inclObs && !h.empty()) for (int i = 0; i < S; i++) for (int j = 0; j < S; j++) if (s[i].a && s[j].a) { bool expect = ref::included(s[i].m, s[j].m); c.count(expect ? "history_pairs_included" : "history_pairs_not_included"); if (i != j && tablePtr(*s[i].a) == tablePtr(*s[j].a)) c.count("history_pairs_sharing_a_table");
+      inclObserve(*s[i].a, *s[j].a, expect, "s" + std::to_string(i) + " <= s" + std::to_string(j) + "  with s" + std::to_string(i) + " = " + s[i].m.str(N) + " and s" + std::to_string(j) + " = " + s[j].m.str(N), c);
+      ref::TA gi = numModel(*s[i].a), gj = numModel(*s[j].a); if (!ref::equalLang(gi, s[i].m) || !ref::equalLang(gj, s[j].m)) c.viol(enc + "/CheckInclusion", "operand_language_changed", {"in_history"}, "after s" + std::to_string(i) + " <= s" + std::to_string(j)); }
   R.key = keyOf(s); if (h.empty()) R.prefixKey = ""; { std::set<const void*> seen; for (int i = 0; i < S; i++) if (s[i].a && !seen.insert(tablePtr(*s[i].a)).second) R.sharing = true; }
   return R;
 }
 static int findOp(K kind, int i, int j, int k, int m) { for (size_t x = 0; x < menu().size(); x++) { const Op& o = menu()[x]; if (o.kind == kind && o.i == i && o.j == j && o.k == k && o.m == m) return (int)x; } abort(); }
 // `seeded`: start the search from a non-initial state in which two handles share one transition table
 //   1: s0=load(M0); s1=copy(s0)      2: s0=load(M3); s1=copy(s0); s2=load(M1)
-template <class Aut> static void body(Env& env, const std::string& stage, int depth, uint64_t budget, int seeded = 0) {
-  hist::Spec sp; sp.stage = stage; sp.menuSize = (int)menu().size(); sp.maxDepth = depth; sp.stateBudget = budget; sp.caseTimeout = 60; bool verbose = !env.replayArg.empty();
+template <class Aut> static void body(Env& env, const std::string& stage, int depth, uint64_t budget, int seeded = 0, bool inclObs = false) {
+  g_inclObs = inclObs; hist::Spec sp; sp.stage = stage; sp.menuSize = (int)menu().size(); sp.maxDepth = depth; sp.stateBudget = budget; sp.caseTimeout = 60; bool verbose = !env.replayArg.empty();
   std::vector<int> prefix; if (seeded == 1) prefix = {findOp(LOAD, 0, 0, 0, 0), findOp(COPY, 0, 1, 0, 0)}; if (seeded == 2) prefix = {findOp(LOAD, 0, 0, 0, 3), findOp(COPY, 0, 1, 0, 0), findOp(LOAD, 2, 0, 0, 1)};
   sp.run = [verbose, prefix](const std::vector<int>& h, Ctx& c) { std::vector<int> full = prefix; full.insert(full.end(), h.begin(), h.end()); hist::StepResult r = run<Aut>(full, c, verbose); if (h.empty()) r.prefixKey = ""; return r; };
   sp.describe = [prefix](const std::vector<int>& h) { std::vector<int> full = prefix; full.insert(full.end(), h.begin(), h.end()); return (prefix.empty() ? "" : "[from the seeded state] ") + describe(full); };
@@ -206,4 +221,11 @@ static Register h11("c08.hist.bu.seeded1.d4", "C08", "bdd-bu, BFS depth 4 from s
 static Register h12("c08.hist.bu.seeded2.d4", "C08", "bdd-bu, BFS depth 4 from s0=load(M3); s1=copy(s0); s2=load(M1)", [](Env& e) { body<BDDBottomUpTreeAut>(e, "c08.hist.bu.seeded2.d4", 4, 4000000, 2); });
 static Register h13("c08.hist.td.seeded1.d4", "C08", "bdd-td, BFS depth 4 from s0=load(M0); s1=copy(s0)", [](Env& e) { body<BDDTopDownTreeAut>(e, "c08.hist.td.seeded1.d4", 4, 4000000, 1); });
 static Register h14("c08.hist.td.seeded2.d4", "C08", "bdd-td, BFS depth 4 from s0=load(M3); s1=copy(s0); s2=load(M1)", [](Env& e) { body<BDDTopDownTreeAut>(e, "c08.hist.td.seeded2.d4", 4, 4000000, 2); });
+static Register i1("c07.hist.bu.d3", "C07", "bdd-bu history world (load/copy/assign/Union/Intersection/trimming/SetStateFinal/AddTransition, 3 slots), BFS depth 3: in every state every ordered pair of live handles, incl. handles sharing a table, through up_nosim and down_rec_sim", [](Env& e) { body<BDDBottomUpTreeAut>(e, "c07.hist.bu.d3", 3, 3000000, 0, true); });
+static Register i2("c07.hist.td.d3", "C07", "bdd-td history world, BFS depth 3: every ordered pair of live handles through down_rec with/without implication cache", [](Env& e) { body<BDDTopDownTreeAut>(e, "c07.hist.td.d3", 3, 3000000, 0, true); });
+static Register i3("c07.hist.bu.seeded1.d3", "C07", "bdd-bu history world, BFS depth 3 from s0=load(M0); s1=copy(s0)", [](Env& e) { body<BDDBottomUpTreeAut>(e, "c07.hist.bu.seeded1.d3", 3, 3000000, 1, true); });
+static Register i4("c07.hist.td.seeded1.d3", "C07", "bdd-td history world, BFS depth 3 from s0=load(M0); s1=copy(s0)", [](Env& e) { body<BDDTopDownTreeAut>(e, "c07.hist.td.seeded1.d3", 3, 3000000, 1, true); });
+static Register i5("c07.hist.bu.d4", "C07", "bdd-bu history world, BFS depth 4 with inclusion of every pair of handles in every state", [](Env& e) { body<BDDBottomUpTreeAut>(e, "c07.hist.bu.d4", 4, 3000000, 0, true); });
+static Register i6("c07.hist.td.d4", "C07", "bdd-td history world, BFS depth 4 with inclusion of every pair of handles in every state", [](Env& e) { body<BDDTopDownTreeAut>(e, "c07.hist.td.d4", 4, 3000000, 0, true); });
+static Register i7("c07.hist.bu.seeded2.d3", "C07", "bdd-bu history world, BFS depth 3 from s0=load(M3); s1=copy(s0); s2=load(M1)", [](Env& e) { body<BDDBottomUpTreeAut>(e, "c07.hist.bu.seeded2.d3", 3, 3000000, 2, true); });
 }  // namespace c08h
